@@ -602,4 +602,50 @@ func init() {
 	externals["errors.Is"] = func(in *Interp, fr *frame, args []value) value {
 		return in.tb.Bool(in.errorsIs(fr, args[0], args[1], 0))
 	}
+	// errors.As(err, target): target is a non-nil pointer to a variable of an interface type or of
+	// a type implementing error; the first error of the chain assignable to it is stored
+	externals["errors.As"] = func(in *Interp, fr *frame, args []value) value {
+		tgt, ok := args[1].(iface)
+		if !ok || tgt.t == nil {
+			panic(targetPanic{msg: "errors: target cannot be nil"})
+		}
+		pt, ok := tgt.t.Underlying().(*types.Pointer)
+		p, ok2 := tgt.v.(*value)
+		if !ok || !ok2 || p == nil {
+			panic(targetPanic{msg: "errors: target must be a non-nil pointer"})
+		}
+		elem := pt.Elem()
+		err := args[0]
+		for depth := 0; depth < 50; depth++ {
+			e, ok := err.(iface)
+			if !ok || e.t == nil {
+				return in.tb.False
+			}
+			if it, isItf := elem.Underlying().(*types.Interface); isItf {
+				if types.Implements(e.t, it) {
+					store(elem, p, e)
+					return in.tb.True
+				}
+			} else if types.Identical(e.t, elem) {
+				store(elem, p, e.v)
+				return in.tb.True
+			}
+			if m := in.anyMethod(e.t, "As"); m != nil && m.Signature.Params().Len() == 1 {
+				if r, ok := in.call(fr, 0, m, []value{e.v, args[1]}).(*Term); ok && in.branch(r) {
+					return in.tb.True
+				}
+			}
+			m := in.anyMethod(e.t, "Unwrap")
+			if m == nil || m.Signature.Params().Len() != 0 || m.Signature.Results().Len() != 1 {
+				return in.tb.False
+			}
+			res := in.call(fr, 0, m, []value{e.v})
+			r, ok := res.(iface)
+			if !ok {
+				panic(unsupported{"errors.As: Unwrap() []error"})
+			}
+			err = r
+		}
+		panic(unsupported{"errors.As: unwrap chain too long"})
+	}
 }
